@@ -102,4 +102,63 @@ C02_Holds(c, in, o) ==
     [] c = "mod-brace"   -> o.expanded /\ in.kind = "mod" => o.closeOut >= in.close
     [] c = "impl-beside" -> o.expanded /\ in.kind = "impl" => IsPrefix(in.keep, o.out)
 C02_Fail(in, o) == { c \in C02_Conj : ~C02_Holds(c, in, o) }
+
+(***************************************************************************)
+(* C17  Options mean what the table says; macro variants are shorthands.   *)
+(*  Metamorphic: two invocations of the SAME item related by one of        *)
+(*   "bare=true"     an option written bare vs `= true`                    *)
+(*   "false=omitted" `no_deps = false` / `export = false` inserted         *)
+(*   "order"         the options permuted                                  *)
+(*   "export-variant"  entrait_export(a) vs entrait(a, export)             *)
+(*   "unimock-feature" feature-on entrait(a) vs feature-off (a, unimock)   *)
+(*  must produce identical output tokens (e.left = e.right).               *)
+(*  Acceptance: an option documented for the target is accepted, one       *)
+(*  documented only for other targets (or unknown) is rejected.  Reading:  *)
+(*  the table (src/lib.rs) does not mention `debug`, and lists `no_deps`   *)
+(*  for `fn` while module mode is described as grouping such functions:    *)
+(*  those two cells carry no requirement.                                  *)
+(***************************************************************************)
+C17_Table(target) ==
+  CASE target = "fn"    -> {"no_deps", "export", "mock_api", "unimock", "mockall", "?Send"}
+    [] target = "mod"   -> {"export", "mock_api", "unimock", "mockall", "?Send"}
+    [] target = "trait" -> {"mock_api", "unimock", "mockall", "delegate_by", "?Send"}
+    [] target = "impl"  -> {}
+C17_Unspecified(target) == IF target = "mod" THEN {"debug", "no_deps"} ELSE {"debug"}
+C17_Conj == {"same-expansion", "accepted-on-table", "rejected-off-table"}
+C17_Holds(c, e) ==
+  CASE c = "same-expansion"     -> e.kind = "pair" => e.left = e.right
+    [] c = "accepted-on-table"  -> e.kind = "accept" /\ e.wellformed /\ e.key \in C17_Table(e.target) => e.accepted
+    [] c = "rejected-off-table" -> e.kind = "accept" /\ e.key \notin (C17_Table(e.target) \cup C17_Unspecified(e.target))
+                                   => ~e.accepted /\ ~e.panicked
+C17_Fail(e) == { c \in C17_Conj : ~C17_Holds(c, e) }
+
+(***************************************************************************)
+(* C10  Mock code is generated only when enabled and is test-gated unless  *)
+(*      exported.                                                          *)
+(*  in : a lattice point [macro, feature, target, unimock, mockall, export *)
+(*        \in {"absent","true","false"}, mock_api \in {"absent","present"}] *)
+(*  o  : [expanded; unimock / mockall: is the derivation attached to the   *)
+(*        trait; ugated / mgated: is it wrapped in cfg_attr(test, ..);     *)
+(*        and, where the build configuration can show it (built = TRUE),   *)
+(*        whether a non-test / test build of the crate contains the mock:  *)
+(*        nt_unimock, t_unimock, nt_mockall, t_mockall]                    *)
+(***************************************************************************)
+Explicit(v, default) == IF v = "absent" THEN default ELSE v = "true"
+C10_Exporting(in) == Explicit(in.export, in.macro = "entrait_export")
+C10_UnimockOn(in) == /\ Explicit(in.unimock, in.feature)
+                     /\ (in.target \in {"fn", "mod"} => in.mock_api = "present")
+C10_MockallOn(in) == Explicit(in.mockall, FALSE)
+C10_Conj == {"unimock-iff-enabled", "mockall-iff-enabled", "gated-unless-exporting",
+             "nontest-build-unimock", "test-build-unimock", "nontest-build-mockall", "test-build-mockall"}
+C10_Holds(c, in, o) ==
+  CASE c = "unimock-iff-enabled"    -> o.expanded => o.unimock = C10_UnimockOn(in)
+    [] c = "mockall-iff-enabled"    -> o.expanded => o.mockall = C10_MockallOn(in)
+    [] c = "gated-unless-exporting" -> o.expanded => /\ (o.unimock => o.ugated = ~C10_Exporting(in))
+                                                     /\ (o.mockall => o.mgated = ~C10_Exporting(in))
+    \* non-test builds contain the mock implementation iff it is enabled AND exported; test builds iff enabled
+    [] c = "nontest-build-unimock"  -> o.built => o.nt_unimock = (C10_UnimockOn(in) /\ C10_Exporting(in))
+    [] c = "test-build-unimock"     -> o.built => o.t_unimock = C10_UnimockOn(in)
+    [] c = "nontest-build-mockall"  -> o.built => o.nt_mockall = (C10_MockallOn(in) /\ C10_Exporting(in))
+    [] c = "test-build-mockall"     -> o.built => o.t_mockall = C10_MockallOn(in)
+C10_Fail(in, o) == { c \in C10_Conj : ~C10_Holds(c, in, o) }
 =============================================================================
